@@ -4,6 +4,8 @@ import (
 	"fmt"
 	"go/token"
 	"go/types"
+	"sort"
+	"strings"
 
 	"golang.org/x/tools/go/ssa"
 )
@@ -548,6 +550,10 @@ func checkC19(c *Ctx) {
 	checkReportNamesVerbatim(c, "R10")
 	c.Rule("R11", "the report is built from bytes the handler owns: the bytes of a pooled buffer are only copied out of the function that releases it (shared with C13.R11)")
 	checkPooledBytesEscape(c, "R11")
+	c.Rule("R12", "the lookup of a key and the insertion it decides are covered by one acquisition of the counter's mutex")
+	checkLookupInsertAtomic(c, "R12")
+	c.Rule("R13", "list surgery: InsertAfterMe / InsertBeforeMe / Free of the frequency buckets leave a doubly linked list (symbolic execution over all neighbour shapes)")
+	checkListSurgery(c, "R13")
 }
 
 var le19cache *lockEngine
@@ -917,4 +923,180 @@ func checkPooledBytesEscape(c *Ctx, rule string) {
 		c.OK(rule, "no bytes taken from a pooled buffer", token.NoPos, "no function of proc/redis reads the bytes of a buffer it took from a pool")
 	}
 	_ = nbad
+}
+
+// checkLookupInsertAtomic (C19.R12): "is this key tracked" and "start tracking it" are one critical section. If the lookup
+// in the item map and the insertion it decides run under two acquisitions of the counter's mutex, two writers that miss
+// the same new key both insert it: the map holds one entry, the list two - the key under-reports its accesses and an
+// eviction deletes the live entry, so the counter tracks more keys than its capacity.
+func checkLookupInsertAtomic(c *Ctx, rule string) {
+	p := c.P
+	items := p.Field(hkPkg, "Counter", "items")
+	cmu := p.Field(hkPkg, "Counter", "mu")
+	incr := p.Func(hkPkg, "(*Counter).Incr")
+	if items == nil || cmu == nil || incr == nil {
+		c.Unresolved(rule, "Counter.items / Counter.mu / Counter.Incr")
+		return
+	}
+	// the acquisition that covers an instruction: the Lock of the mutex in the same function that dominates it with no
+	// unlock in between, or - when the function is entered with the lock held - the one that covers its single call site
+	var acqOf func(in ssa.Instruction, depth int) ssa.Instruction
+	acqOf = func(in ssa.Instruction, depth int) ssa.Instruction {
+		fn := in.Parent()
+		var acq ssa.Instruction
+		eachInstr(fn, func(_ *ssa.BasicBlock, _ int, x ssa.Instruction) {
+			fld, op := mutexOp(x)
+			if fld != cmu || (op != "Lock" && op != "RLock") {
+				return
+			}
+			if _, isDefer := x.(*ssa.Defer); isDefer || !instrDominates(x, in) {
+				return
+			}
+			// no unlock between
+			if findPath(posOf(x), pathQuery{target: func(y ssa.Instruction) bool { return y == in }, avoid: func(y ssa.Instruction) bool {
+				f2, op2 := mutexOp(y)
+				_, isDefer := y.(*ssa.Defer)
+				return !isDefer && f2 == cmu && (op2 == "Unlock" || op2 == "RUnlock")
+			}}) != nil {
+				acq = x
+			}
+		})
+		if acq != nil || depth > 3 {
+			return acq
+		}
+		var sites []ssa.Instruction
+		for _, ed := range p.callersOf(fn) {
+			if !p.isTestFn(ed.Caller.Func) {
+				sites = append(sites, ed.Site)
+			}
+		}
+		if len(sites) == 1 {
+			return acqOf(sites[0], depth+1)
+		}
+		return nil
+	}
+	cone := append([]*ssa.Function{incr}, staticCalleesDeep(incr, 3)...)
+	var lookups, inserts []ssa.Instruction
+	for _, fn := range cone {
+		if fn.Blocks == nil || fnPkg(fn) != fnPkg(incr) {
+			continue
+		}
+		eachInstr(fn, func(_ *ssa.BasicBlock, _ int, in ssa.Instruction) {
+			switch x := in.(type) {
+			case *ssa.Lookup:
+				if f, _ := loadedField(x.X); f == items {
+					lookups = append(lookups, in)
+				}
+			case *ssa.MapUpdate:
+				if f, _ := loadedField(x.Map); f == items {
+					inserts = append(inserts, in)
+				}
+			}
+		})
+	}
+	if len(lookups) == 0 || len(inserts) == 0 {
+		c.Undecided(rule, "lookup and insertion of a key", incr.Pos(), "cannot find the map lookup and the insertion reachable from Incr")
+		return
+	}
+	ok := true
+	why := ""
+	for _, l := range lookups {
+		for _, u := range inserts {
+			al, au := acqOf(l, 0), acqOf(u, 0)
+			if al == nil || au == nil {
+				ok, why = false, "the lookup or the insertion is not covered by an acquisition of the counter's mutex"
+			} else if al != au {
+				ok, why = false, "the lookup ("+p.Pos(l.Pos())+") and the insertion ("+p.Pos(u.Pos())+") are covered by different acquisitions of the counter's mutex ("+p.Pos(al.Pos())+" and "+p.Pos(au.Pos())+")"
+			}
+		}
+	}
+	c.Check(ok, rule, "lookup and insertion of a key are one critical section", incr.Pos(), "one acquisition of Counter.mu covers the lookup and the insertion", why+": two writers that access the same new key at the same moment both miss and both insert it - the key under-reports its accesses, and evicting the duplicate deletes the live map entry so that more keys than the capacity are tracked")
+}
+
+// checkListSurgery (C19.R13): the frequency buckets form a doubly linked list that eviction walks from its head. The
+// three primitives are executed symbolically (symheap.go) over all nil/non-nil shapes of the neighbours and their final
+// heaps compared with the specification of a doubly linked list: after n.InsertAfterMe(o): n.next = o, o.prev = n,
+// o.next = X, X.prev = o (X the old successor, if any); symmetrically for InsertBeforeMe; after n.Free() the neighbours
+// point at each other and n points nowhere.
+func checkListSurgery(c *Ctx, rule string) {
+	p := c.P
+	type want struct{ cell, val, ifNonNil string }
+	specs := map[string][]want{
+		"(*freqNode).InsertAfterMe":  {{"n.next", "o", ""}, {"o.prev", "n", ""}, {"o.next", "n.next@0", ""}, {"n.next@0.prev", "o", "n.next@0"}},
+		"(*freqNode).InsertBeforeMe": {{"n.prev", "o", ""}, {"o.next", "n", ""}, {"o.prev", "n.prev@0", ""}, {"n.prev@0.next", "o", "n.prev@0"}},
+		"(*freqNode).Free":           {{"n.prev", "nil", ""}, {"n.next", "nil", ""}, {"n.prev@0.next", "n.next@0", "n.prev@0"}, {"n.next@0.prev", "n.prev@0", "n.next@0"}},
+	}
+	var names []string
+	for k := range specs {
+		names = append(names, k)
+	}
+	sort.Strings(names)
+	for _, name := range names {
+		fn := p.Func(hkPkg, name)
+		if fn == nil {
+			c.Unresolved(rule, name)
+			continue
+		}
+		// parameter names of the specification are positional
+		ren := map[string]string{}
+		if len(fn.Params) >= 1 {
+			ren[fn.Params[0].Name()] = "n"
+		}
+		if len(fn.Params) >= 2 {
+			ren[fn.Params[1].Name()] = "o"
+		}
+		norm := func(s string) string {
+			for from, to := range ren {
+				if s == from || strings.HasPrefix(s, from+".") {
+					s = to + s[len(from):]
+				}
+			}
+			return s
+		}
+		finals, why := symExec(fn)
+		site := name + " keeps the list doubly linked"
+		if why != "" {
+			c.Undecided(rule, site, fn.Pos(), "outside the symbolic fragment: "+why)
+			continue
+		}
+		bad := ""
+		for _, st := range finals {
+			heap := map[string]string{}
+			for k, v := range st.heap {
+				heap[norm(k)] = norm(v)
+			}
+			nilOf := map[string]bool{}
+			for k, v := range st.isNil {
+				nilOf[norm(k)] = v
+			}
+			get := func(cell string) string {
+				if v, ok := heap[cell]; ok {
+					return v
+				}
+				return cell + "@0"
+			}
+			for _, w := range specs[name] {
+				if w.ifNonNil != "" {
+					if isN, known := nilOf[w.ifNonNil]; known && isN {
+						continue
+					}
+					if _, read := heap[strings.TrimSuffix(w.ifNonNil, "@0")]; !read && !strings.Contains(st.describe(), w.ifNonNil) {
+						// the neighbour was never looked at on this path: it must at least have been tested
+					}
+				}
+				val := w.val
+				if nilOf[val] && val != "nil" {
+					val = "nil"
+				}
+				got := get(w.cell)
+				if nilOf[got] && got != "nil" {
+					got = "nil"
+				}
+				if got != val && bad == "" {
+					bad = fmt.Sprintf("%s ends as %s, the list needs %s (final heap: %s)", w.cell, got, w.val, st.describe())
+				}
+			}
+		}
+		c.Check(bad == "", rule, site, fn.Pos(), fmt.Sprintf("%d paths executed symbolically, every final heap matches the specification", len(finals)), bad+": a bucket with a wrong back link is unlinked through it later, the buckets behind it are cut off from the head and eviction no longer removes a key with the lowest count")
+	}
 }
